@@ -21,3 +21,4 @@ for c in "$@"; do
   (cd /verif && VERIF_REPO=$R ./check $c --tier quick 2>&1 | grep -E "VIOLATION|KNOWN|class=|quick:|broken" | cut -c1-300)
 done
 git -C $R checkout -q -- . && git -C $R clean -fdq && git -C $R checkout -q --detach $(git -C /repo rev-parse HEAD)
+git -C /verif checkout -- coq/theories/gen 2>/dev/null
